@@ -69,13 +69,17 @@ class AEv:
 
 class World:
     def __init__(self, rnd, codes=None, big_tids=True, allow_zero_tid=True, ts='inc'):
+        from . import decoy
+        decoy.tick()          # other objects with other code tables are at work in the same process (harness/decoy.py)
         self.rnd = rnd
         # timestamps of the concrete records: strictly increasing, coarse ticks (runs of EQUAL timestamps, as two
         # records written back to back share a timebase tick) or all equal.  Event identity never uses timestamps
         # in the checks that pass ts='any'.
         self.ts_mode = rnd.choice(['inc', 'inc', 'tied', 'tied', 'const']) if ts == 'any' else ts
         self.ts_g = rnd.choice([2, 3, 5])
-        self.codes = dict(default_codes()) if codes is None else codes
+        # the table handed to the code: a fresh copy of the bundled one, or the caller's ONE table object that other
+        # requests (decoys) refill in place between the cases
+        self.codes = (decoy.caller_table() if rnd.random() < 0.5 else dict(default_codes())) if codes is None else codes
         self.parser_codes = self.codes        # the table handed to the code (may be the code's own parse of a text)
         self.name2id = {}
         self.name_ids = {}            # a supplied table may give one name to several ids: all of them decode
